@@ -16,6 +16,8 @@ verus! {
 // KMeans::predict is generic over the matrix backend (contract of prelude/matrix_abs2.rs) and calls the extracted and
 // proved Euclidian::squared_distance (C12/inc/euclid_sq.rs): the distances compared are exactly kd(x, centroids, i, j).
 impl<T: RealNumber> KMeans<T> {
+    // loops see the facts of the enclosing code: e.g. the row copy may sit before the scan loop just as well as inside it
+    #[verifier::loop_isolation(false)]
 //@extract src/cluster/kmeans.rs :: impl<T: RealNumber + Sum> KMeans<T> :: predict :: ret=r
 //@spec
         requires
